@@ -14,8 +14,8 @@ EXTENDS Symbols, Json
 
 TraceLog == ndJsonDeserialize("symtrace.ndjson")
 
-VARIABLES i, tbl, procs, ends, parts
-vars == <<i, tbl, procs, ends, parts>>
+VARIABLES i, tbl, procs, ends, parts, lk
+vars == <<i, tbl, procs, ends, parts, lk>>
 
 Ev == TraceLog[i]
 
@@ -24,6 +24,7 @@ Init == /\ i = 1
         /\ procs = <<>>
         /\ ends = <<>>
         /\ parts = <<>>
+        /\ lk = <<>>
 
 StepEvents == {"pkgR", "pkgW", "already", "xchk", "commit", "addExt"}
 
@@ -37,6 +38,7 @@ Reset == /\ Ev.ev = "init"
          /\ parts' = Ev.parts
          /\ procs' = [p \in DOMAIN Ev.parts |-> NewProc(Ev.parts[p])]
          /\ ends' = [p \in DOMAIN Ev.parts |-> 0]
+         /\ lk' = <<>>
 
 LabelMatches(lab, e) ==
   /\ lab.a = e.ev
@@ -67,7 +69,7 @@ Step == /\ Ev.ev \in StepEvents
              IN /\ LabelMatches(r.lab, Ev)
                 /\ tbl' = r.t
                 /\ procs' = [procs EXCEPT ![Ev.p] = r.p]
-        /\ UNCHANGED <<ends, parts>>
+        /\ UNCHANGED <<ends, parts, lk>>
 
 End == /\ Ev.ev = "end"
        /\ Ev.p \in DOMAIN procs
@@ -77,19 +79,31 @@ End == /\ Ev.ev = "end"
             /\ (P # procs[Ev.p] => ends[Ev.p] + 1 = Len(P.res))   \* a silent step only for the newest result
             /\ procs' = [procs EXCEPT ![Ev.p] = P]
        /\ ends' = [ends EXCEPT ![Ev.p] = @ + 1]
-       /\ UNCHANGED <<tbl, parts>>
+       /\ UNCHANGED <<tbl, parts, lk>>
 
-(* The answer for a name that is a registered PACKAGE is left open: the statements speak of the symbols
+(* Lookup / LookupExtension are two critical sections: the walk down the package trie (read locks of
+   the nodes on the way) chooses the node, then that node's map is read under its read lock, where the
+   event is emitted.  A location is read from the map at the event, so "found" must hold in the table now.
+   A nil answer may have been decided by the walk (the package of the name was not registered yet) and is
+   linearised there: it is accepted if the name was not in the table at the previous event of the same
+   goroutine (the table only grows, and the walk came after that event).  lk remembers that table.
+   The answer for a name that is a registered PACKAGE is left open: the statements speak of the symbols
    of files.  (Observed: Lookup("p") is nil before and long after package p is registered, but answers
-   with the package's location when the registration falls between its walk down the trie and its read
-   of the symbols map.)  *)
+   with the package's location when the registration falls between the walk and the read.)  *)
+Prev(p) == IF p \in DOMAIN lk THEN lk[p] ELSE [syms |-> {}, exts |-> {}]
+Remember(p) == lk' = (p :> [syms |-> DOMAIN tbl.syms, exts |-> DOMAIN tbl.exts]) @@ lk
+
 Lookup == /\ Ev.ev = "lookup"
           /\ \/ Ev.name \in tbl.pkgs
-             \/ (Ev.r = "found") <=> (LookupRes(tbl, Ev.name) # "")
+             \/ Ev.r = "found" /\ Ev.name \in DOMAIN tbl.syms
+             \/ Ev.r = "nil" /\ Ev.name \notin Prev(Ev.p).syms
+          /\ Remember(Ev.p)
           /\ UNCHANGED <<tbl, procs, ends, parts>>
 
 LookupExt == /\ Ev.ev = "lookupExt"
-             /\ (Ev.r = "found") <=> (LookupExtRes(tbl, Ev.name, Ev.tag) # "")
+             /\ \/ Ev.r = "found" /\ <<Ev.name, Ev.tag>> \in DOMAIN tbl.exts
+                \/ Ev.r = "nil" /\ <<Ev.name, Ev.tag>> \notin Prev(Ev.p).exts
+             /\ Remember(Ev.p)
              /\ UNCHANGED <<tbl, procs, ends, parts>>
 
 Final == /\ Ev.ev = "final"
@@ -102,7 +116,7 @@ Final == /\ Ev.ev = "final"
          /\ Ev.somefail = SomeFail
          (* C16 on the real verdicts *)
          /\ Ev.somefail <=> UnionHasCollision(AllFiles)
-         /\ UNCHANGED <<tbl, procs, ends, parts>>
+         /\ UNCHANGED <<tbl, procs, ends, parts, lk>>
 
 Next == /\ i <= Len(TraceLog)
         /\ i' = i + 1
